@@ -68,6 +68,14 @@ CHECKS = {
         note="Trusted: CrossHair's str model, z3, the 25-line spec() oracle, the assumption that handler coroutines do not suspend (asserted). "
              "Outside: longer texts, >3 chunks, buffering/pipe paths, patterns outside the catalogue.",
         ref="4/C18"),
+    "C09": dict(
+        text="For 10 catalogue programs (children with actions, when/or-when scopes, or-groups of flows, activate waiting/immediate/two activators, grand-children with and/or "
+             "groups, competing flows, while+if) and every history of 2 (thorough 3-4) events over each program's alphabet incl. ActionStarted/Finished feedback, symbolic payload "
+             "offsets, symbolic tie-breaks and an optional 10 s idle gap (clean-up) at any step, every path of the real run_to_completion ends with: empty internal queue, every "
+             "live head of a running flow on a match/WaitForHeads element, done flows without heads, all child/action/scope references of running flows resolving, and "
+             "event_matching_heads == from-scratch scan (multiset) with an exact reverse map and flow_id_states == group-by of flow_states.",
+        note="The state is brought to the post-`Go` situation natively; everything after is traced. Outside: programs outside the catalogue, longer histories.",
+        ref="4/C09"),
 }
 
 NOT_APPLICABLE = {
